@@ -89,6 +89,7 @@ type Contracts struct {
 	Writers   []*WriterRule
 	Bundles   map[string]*FuncSpec
 	Axioms    []*Lemma
+	Uses      string // name of a package whose singleton state this package drives (usage contracts)
 }
 
 // Lemma: a closed proof obligation over spec predicates only.
@@ -111,7 +112,7 @@ type WriterRule struct {
 	Line    int
 }
 
-var keywordRe = regexp.MustCompile(`^(requires|ensures|assume|modifies|bundle|use|axiom|inline|trusted|loop|at|ghost|wraps|func|pred|pure|extern|singleton|receiver|alias|opaque|runtags|lemma|writers|callers|forbid|params|results|nopanic|terminates|maypanic)\b`)
+var keywordRe = regexp.MustCompile(`^(requires|ensures|assume|modifies|bundle|use|axiom|inline|trusted|loop|at|ghost|wraps|func|pred|pure|extern|singleton|uses|receiver|alias|opaque|runtags|lemma|writers|callers|forbid|params|results|nopanic|terminates|maypanic)\b`)
 
 func newContracts() *Contracts {
 	return &Contracts{
@@ -228,6 +229,8 @@ func ParseContracts(file string, c *Contracts) error {
 		case "singleton":
 			c.Singleton = rest
 			c.Receivers[rest] = ""
+		case "uses":
+			c.Uses = rest
 		case "receiver":
 			// receiver Context = Context.
 			name, path, ok := strings.Cut(rest, "=")
